@@ -100,20 +100,20 @@ Definition store (values : list raw_value) (slots : list (option bytes)) (p : pk
 Lemma store_length values slots p : length (store values slots p) = length slots.
 Proof. unfold store. destruct (nth _ values RNull); try reflexivity. apply set_nth_length. Qed.
 
-Lemma pk_loop_ok ncols count values : N.of_nat (length values) <= 65535 ->
+Lemma pk_loop_ok chk ncols count values : N.of_nat (length values) <= 65535 ->
   forall pkis offset slots,
   StronglySorted idx_lt pkis ->
   Forall (fun p => offset <= pki_index p /\ (N.to_nat (pki_index p) < length values)%nat /\
                    (N.to_nat (pki_index p) < ncols)%nat /\
                    (N.to_nat (pki_sequence p) < length slots)%nat) pkis ->
-  pk_new_loop ncols count pkis (skipn (N.to_nat offset) values) offset slots =
+  pk_new_loop chk ncols count pkis (skipn (N.to_nat offset) values) offset slots =
   Ok (fold_left (store values) pkis slots).
 Proof.
   intros HV. induction pkis as [|p rest IH]; intros offset slots Hs Hf; [reflexivity|].
   apply StronglySorted_inv in Hs as [Hs Hlt]. inversion Hf as [|? ? (Ho & Hv & Hc & Hq) Hf']; subst.
   cbn [pk_new_loop fold_left].
   destruct (pki_index p <? offset) eqn:E1; [apply N.ltb_lt in E1; lia|].
-  unfold iter_nth. rewrite skipn_skipn'.
+  cbv zeta. unfold iter_nth. rewrite skipn_skipn'.
   replace (N.to_nat offset + N.to_nat (pki_index p - offset))%nat with (N.to_nat (pki_index p)) by lia.
   rewrite (skipn_cons_nth RNull) by exact Hv.
   assert (Hstored :
@@ -190,11 +190,11 @@ Lemma nth_repeat_None {A} n j : nth j (repeat (@None A) n) None = None.
 Proof. revert j; induction n as [|n IH]; intros j; destruct j; cbn [repeat nth]; auto. Qed.
 
 (* PartitionKey::new puts the value bound to the j-th announced marker into slot j *)
-Theorem pk_new_order ncols wire values :
+Theorem pk_new_order chk ncols wire values :
   NoDup wire ->
   (forall i, In i wire -> (N.to_nat i < length values)%nat /\ (N.to_nat i < ncols)%nat) ->
   N.of_nat (length values) <= 65535 ->
-  pk_new ncols wire values = Ok (map (fun i => as_value (nth (N.to_nat i) values RNull)) wire).
+  pk_new chk ncols wire values = Ok (map (fun i => as_value (nth (N.to_nat i) values RNull)) wire).
 Proof.
   intros Hnd Hin HV. unfold pk_new, deser_pk_indexes.
   set (pkis := sort_by_index (enumerate_from 0 wire)).
@@ -215,7 +215,7 @@ Proof.
     assert (In (pki_sequence p) (nrange 0 (length wire))) as Hsq.
     { eapply Permutation_in; [exact Hseq|]. apply in_map. exact Hp. }
     apply nrange_In in Hsq. specialize (Hin _ Hi). lia. }
-  pose proof (pk_loop_ok ncols (N.of_nat (length values)) values HV pkis 0 _ Hsorted Hall) as Hloop.
+  pose proof (pk_loop_ok chk ncols (N.of_nat (length values)) values HV pkis 0 _ Hsorted Hall) as Hloop.
   change (N.to_nat 0) with O in Hloop. cbn [skipn] in Hloop. rewrite Hloop. f_equal.
   assert (Hnds : NoDup (map pki_sequence pkis)).
   { eapply Permutation_NoDup; [symmetry; exact Hseq|apply nrange_NoDup]. }
@@ -309,8 +309,8 @@ Definition key_ok (ncols : nat) (wire : list N) (values : list raw_value) : Prop
                           exists b, nth (N.to_nat i) values RNull = RValue b) /\
   N.of_nat (length values) <= 65535.
 
-Lemma pk_new_key_ok ncols wire values : key_ok ncols wire values ->
-  exists slots, pk_new ncols wire values = Ok slots /\
+Lemma pk_new_key_ok chk ncols wire values : key_ok ncols wire values ->
+  exists slots, pk_new chk ncols wire values = Ok slots /\
                 flatten_slots slots = spec_components wire values.
 Proof.
   intros (Hnd & Hin & HV). eexists. split.
@@ -318,26 +318,26 @@ Proof.
   - apply flatten_all_values. intros i Hi. destruct (Hin i Hi) as (_ & _ & C). exact C.
 Qed.
 
-Theorem ps_compute_partition_key_spec ncols wire values :
+Theorem ps_compute_partition_key_spec chk ncols wire values :
   key_ok ncols wire values ->
   (length wire = 1%nat \/ Forall fits (spec_components wire values)) ->
-  ps_compute_partition_key ncols wire values =
+  ps_compute_partition_key chk ncols wire values =
   Ok (spec_serialized_key (spec_components wire values)).
 Proof.
-  intros Hk Hfit. destruct (pk_new_key_ok _ _ _ Hk) as (slots & Hs & Hf).
+  intros Hk Hfit. destruct (pk_new_key_ok chk _ _ _ Hk) as (slots & Hs & Hf).
   unfold ps_compute_partition_key. rewrite Hs.
   destruct (encoded_pk_chunks_ok slots) as (chunks & Hc & Hcat).
   { rewrite Hf. destruct Hfit as [H|H]; [left; unfold spec_components; rewrite map_length; exact H|right; exact H]. }
   rewrite Hc, Hcat, Hf. reflexivity.
 Qed.
 
-Theorem ps_calculate_token_spec p ncols wire values :
+Theorem ps_calculate_token_spec chk p ncols wire values :
   wire <> [] -> key_ok ncols wire values ->
   (length wire = 1%nat \/ Forall fits (spec_components wire values)) ->
   (Z.of_nat (length (spec_serialized_key (spec_components wire values))) < 2 ^ 63)%Z ->
-  ps_calculate_token p ncols wire values = Ok (Some (spec_token p wire values)).
+  ps_calculate_token chk p ncols wire values = Ok (Some (spec_token p wire values)).
 Proof.
-  intros Hne Hk Hfit Hbound. destruct (pk_new_key_ok _ _ _ Hk) as (slots & Hs & Hf).
+  intros Hne Hk Hfit Hbound. destruct (pk_new_key_ok chk _ _ _ Hk) as (slots & Hs & Hf).
   unfold ps_calculate_token. destruct wire as [|w0 wr]; [contradiction|].
   rewrite Hs. unfold pk_calculate_token.
   destruct (encoded_pk_chunks_ok slots) as (chunks & Hc & Hcat).
@@ -346,13 +346,13 @@ Proof.
   rewrite Hcat, Hf. reflexivity.
 Qed.
 
-Theorem ps_calculate_token_too_long p ncols wire values :
+Theorem ps_calculate_token_too_long chk p ncols wire values :
   key_ok ncols wire values -> (1 < length wire)%nat ->
   Exists (fun c => 65535 < N.of_nat (length c)) (spec_components wire values) ->
-  exists n, ps_calculate_token p ncols wire values = Err (ValueTooLong n) /\ 65535 < n /\
+  exists n, ps_calculate_token chk p ncols wire values = Err (ValueTooLong n) /\ 65535 < n /\
             In n (map (fun c => N.of_nat (length c)) (spec_components wire values)).
 Proof.
-  intros Hk Hlen Hex. destruct (pk_new_key_ok _ _ _ Hk) as (slots & Hs & Hf).
+  intros Hk Hlen Hex. destruct (pk_new_key_ok chk _ _ _ Hk) as (slots & Hs & Hf).
   unfold ps_calculate_token. destruct wire as [|w0 wr]; [cbn [length] in Hlen; lia|].
   rewrite Hs. unfold pk_calculate_token, encoded_pk_chunks. rewrite Hf.
   destruct (composite_chunks_err _ Hex) as (n & Hn & Hlt & Hin).
@@ -364,11 +364,11 @@ Proof.
 Qed.
 
 (* an Ok token never comes from a truncated component, and the only errors are the two named *)
-Theorem ps_calculate_token_errors p ncols wire values e :
-  key_ok ncols wire values -> ps_calculate_token p ncols wire values = Err e ->
+Theorem ps_calculate_token_errors chk p ncols wire values e :
+  key_ok ncols wire values -> ps_calculate_token chk p ncols wire values = Err e ->
   exists n, e = ValueTooLong n /\ 65535 < n.
 Proof.
-  intros Hk H. destruct (pk_new_key_ok _ _ _ Hk) as (slots & Hs & Hf).
+  intros Hk H. destruct (pk_new_key_ok chk _ _ _ Hk) as (slots & Hs & Hf).
   unfold ps_calculate_token in H. destruct wire as [|w0 wr]; [discriminate|].
   rewrite Hs in H. unfold pk_calculate_token, encoded_pk_chunks in H.
   destruct (flatten_slots slots) as [|c [|c' r]]; try discriminate.
@@ -444,9 +444,9 @@ Proof.
 Qed.
 
 (* the model satisfies the property predicate the driver evaluates on observed outputs *)
-Theorem prop_token_model p ncols wire values :
+Theorem prop_token_model chk p ncols wire values :
   (Z.of_nat (length (spec_serialized_key (spec_components wire values))) < 2 ^ 63)%Z ->
-  prop_token_ok p ncols wire values (ps_calculate_token p ncols wire values) = true.
+  prop_token_ok p ncols wire values (ps_calculate_token chk p ncols wire values) = true.
 Proof.
   intros Hbound. unfold prop_token_ok.
   destruct (key_okb ncols wire values) eqn:Ek; [|reflexivity]. cbn [negb].
@@ -457,7 +457,7 @@ Proof.
     rewrite ps_calculate_token_spec; [apply Z.eqb_refl|discriminate|exact Ek| |exact Hbound].
     destruct Es as [H|H]; [left; unfold spec_components in H; rewrite map_length in H; exact H|right; exact H].
   - apply serializableb_false in Es as [Hl Hex].
-    destruct (ps_calculate_token_too_long p ncols (w0 :: wr) values Ek) as (n & Hn & Hlt & _).
+    destruct (ps_calculate_token_too_long chk p ncols (w0 :: wr) values Ek) as (n & Hn & Hlt & _).
     + unfold spec_components in Hl. rewrite map_length in Hl. cbn [length] in *. lia.
     + exact Hex.
     + rewrite Hn. apply N.ltb_lt. exact Hlt.
@@ -512,18 +512,18 @@ Proof.
   rewrite (feed_chunking p chunks2) by (rewrite <- He; exact Hb). rewrite He. reflexivity.
 Qed.
 
-Theorem marker_order_irrelevant p ncols1 wire1 values1 ncols2 wire2 values2 :
+Theorem marker_order_irrelevant chk p ncols1 wire1 values1 ncols2 wire2 values2 :
   wire1 <> [] -> key_ok ncols1 wire1 values1 -> key_ok ncols2 wire2 values2 ->
   spec_components wire1 values1 = spec_components wire2 values2 ->
   (length wire1 = 1%nat \/ Forall fits (spec_components wire1 values1)) ->
   (Z.of_nat (length (spec_serialized_key (spec_components wire1 values1))) < 2 ^ 63)%Z ->
-  ps_calculate_token p ncols1 wire1 values1 = ps_calculate_token p ncols2 wire2 values2.
+  ps_calculate_token chk p ncols1 wire1 values1 = ps_calculate_token chk p ncols2 wire2 values2.
 Proof.
   intros Hne Hk1 Hk2 Hc Hfit Hb.
   assert (Hlen : length wire1 = length wire2).
   { apply (f_equal (@length _)) in Hc. unfold spec_components in Hc. rewrite !map_length in Hc. exact Hc. }
-  rewrite (ps_calculate_token_spec p ncols1 wire1 values1 Hne Hk1 Hfit Hb).
-  rewrite (ps_calculate_token_spec p ncols2 wire2 values2).
+  rewrite (ps_calculate_token_spec chk p ncols1 wire1 values1 Hne Hk1 Hfit Hb).
+  rewrite (ps_calculate_token_spec chk p ncols2 wire2 values2).
   - unfold spec_token. rewrite Hc. reflexivity.
   - destruct wire2; [destruct wire1; [contradiction|discriminate]|discriminate].
   - exact Hk2.
